@@ -20,6 +20,7 @@ type c13Case struct {
 	valAt   int        // index of the bound Val argument in the main statement (-1: none)
 	table   string     // table of the records' statement when they are not the operation's own model
 	batched bool       // several main statements (CreateInBatches): hooks are not ordered around the first one
+	query   func(text string) RowSet // rows per query text (nil: the records under test)
 }
 
 var (
@@ -129,6 +130,16 @@ func c13Cases() []c13Case {
 			run: func(db *gorm.DB) *gorm.DB { return db.Delete(&HOnly8{ID: 4, Name: "r1"}) }},
 		c13Case{name: "only-after-find", records: names[:1], phases: [][]string{{"stmt"}, {"AfterFind"}}, valAt: -1, table: "honly9s",
 			run: func(db *gorm.DB) *gorm.DB { var r []HOnly9; return db.Find(&r) }},
+		// children loaded by Preload: AfterFind once per loaded child record
+		c13Case{name: "find-preload-has-many", records: []string{"b1", "b2", "b3"}, phases: findPhases, prefix: "Book.", valAt: -1, table: "hbooks",
+			query: c13ShelfRows,
+			run: func(db *gorm.DB) *gorm.DB { var r []HShelf; return db.Preload("Books").Find(&r) }},
+		c13Case{name: "first-preload-has-many", records: []string{"b1", "b2", "b3"}, phases: findPhases, prefix: "Book.", valAt: -1, table: "hbooks",
+			query: c13ShelfRows,
+			run: func(db *gorm.DB) *gorm.DB { var r HShelf; return db.Preload("Books").First(&r) }},
+		c13Case{name: "find-preload-shared-belongs-to", records: []string{"b1", "b2"}, phases: findPhases, prefix: "Book.", valAt: -1, table: "hbooks",
+			query: c13ShelfRows,
+			run: func(db *gorm.DB) *gorm.DB { var r []*HBookmark; return db.Preload("Book").Find(&r) }},
 		c13Case{name: "skiphooks-create", records: nil, phases: nil, valAt: -1,
 			run: func(db *gorm.DB) *gorm.DB {
 				r := c13Recs(2)
@@ -150,6 +161,19 @@ func c13Cases() []c13Case {
 			}},
 	)
 	return cs
+}
+
+// c13ShelfRows answers the parent and child queries of the preload cases.
+func c13ShelfRows(text string) RowSet {
+	switch {
+	case indexStr(text, "hbookmarks") >= 0:
+		return RowSet{Cols: []string{"id", "bookid"}, Rows: [][]driver.Value{{int64(1), int64(1)}, {int64(2), int64(1)}, {int64(3), int64(2)}}}
+	case indexStr(text, "hshelves") >= 0 || indexStr(text, "hshelfs") >= 0:
+		return RowSet{Cols: []string{"id", "name"}, Rows: [][]driver.Value{{int64(1), "s1"}}}
+	case indexStr(text, "IN (?,?)") >= 0: // the books of two bookmarks' keys
+		return RowSet{Cols: []string{"id", "name", "shelfid"}, Rows: [][]driver.Value{{int64(1), "b1", int64(1)}, {int64(2), "b2", int64(1)}}}
+	}
+	return RowSet{Cols: []string{"id", "name", "shelfid"}, Rows: [][]driver.Value{{int64(1), "b1", int64(1)}, {int64(2), "b2", int64(1)}, {int64(3), "b3", int64(1)}}}
 }
 
 func N_C13_Hooks(tier int) int { return len(c13Cases()) }
@@ -188,6 +212,9 @@ func H_C13_Hooks(shape int) {
 		return Result{LastID: next, Affected: 1}
 	}
 	s.OnQuery = func(text string, args []driver.Value) RowSet {
+		if c.query != nil {
+			return c.query(text)
+		}
 		rs := RowSet{Cols: []string{"id", "name", "val"}}
 		for i, n := range c.records {
 			rs.Rows = append(rs.Rows, []driver.Value{int64(i + 1), n, int64(0)})
